@@ -181,6 +181,28 @@ func init() {
 		reg(pkg+".Marshal", marshal)
 		reg(pkg+".Unmarshal", unmarshal)
 	}
+	// json.NewEncoder(w).Encode(v): the Marshal text and a newline, written to w with one Write call
+	reg("encoding/json.NewEncoder", func(in *Interp, fn *ssa.Function, args []value) (value, bool) {
+		var enc value = Struct{args[0]}
+		return &enc, true
+	})
+	reg("(*encoding/json.Encoder).Encode", func(in *Interp, fn *ssa.Function, args []value) (value, bool) {
+		w := (*(args[0].(*value))).(Struct)[0].(Iface)
+		if w.T == nil {
+			panic(targetPanic{Msg: "nil pointer dereference (Encode to nil writer)"})
+		}
+		res, _ := marshal(in, fn, []value{args[1]})
+		tup := res.(Tuple)
+		if e, isErr := tup[1].(Iface); isErr && e.T != nil {
+			return e, true
+		}
+		m := in.findMethod(w.T, "Write")
+		if m == nil {
+			panic(engineErr("Encode: writer %v has no Write method", w.T))
+		}
+		out := in.callFn(in.curFrame, 0, m, []value{w.V, sliceOfStr(concatStr(strOfSlice(in, tup[0].(*Slice)), lit("\n")))})
+		return out.(Tuple)[1], true
+	})
 	reg("encoding/json.Valid", func(in *Interp, fn *ssa.Function, args []value) (value, bool) {
 		_, ok := in.bytesToTree(strOfSlice(in, args[0].(*Slice)))
 		return Bool(ok), true
